@@ -294,7 +294,8 @@ def corpus():
 def run(ctx):
     rng = vlib.Rng(ctx.seed)
     import tie_common
-    tie_common.prove(ctx, ['MessageqSeq'], ['Librfn.Props.C10'], REQUIRED, 'Librfn.Props.C10Tie', 'Librfn.C10.Tie')
+    tie_common.prove(ctx, ['MessageqSeq'], ['Librfn.Props.C10'], REQUIRED, 'Librfn.Props.C10Tie', 'Librfn.C10.Tie',
+                     dependents=[('Librfn.Props.C10Gen', 'Librfn.C10.Gen')])
     exe = harness(ctx)
     quick = ctx.tier == 'quick'
     hs = corpus()
